@@ -838,6 +838,42 @@ def extract_tokens():
         raise ValueError(f"lexer callbacks changed: {cbs} (the model transcribes lex_multiline_str only)")
     if not re.search(r"fn lex_multiline_str\(lex: &mut logos::Lexer<TokenKind>\) -> Option<\(\)>", lex):
         raise ValueError("lex_multiline_str: signature changed")
+    # the text logos sees IS the caller's text, and spans are reported unshifted: the model's `lexAll`
+    # starts at offset 0 of the given text and every range is relative to it
+    def _norm(t):
+        return re.sub(r"\s+", " ", t).strip()
+    def _body(sig_re, what):
+        m = re.search(sig_re, lex)
+        if not m:
+            raise ValueError(f"{what}: signature not found")
+        i = lex.index("{", m.end() - 1)
+        depth, j = 0, i
+        while True:
+            if lex[j] == "{":
+                depth += 1
+            elif lex[j] == "}":
+                depth -= 1
+                if depth == 0:
+                    break
+            j += 1
+        return _norm(lex[i + 1:j])
+    want = {
+        "Lexer::new": (r"pub fn new\(input: &'a str\) -> Self \{", "Self { inner: TokenKind::lexer(input), }"),
+        "lexer::lex": (r"pub fn lex\(input: &str\) -> Vec<Token<'_>> \{",
+                       "let lexer = Lexer::new(input); let toks: Vec<Token> = lexer.collect(); toks"),
+        "range_from_span": (r"fn range_from_span\(span: Span\) -> TextRange \{",
+                            "let std::ops::Range { start, end } = span; let start = TextSize::try_from(start).unwrap(); "
+                            "let end = TextSize::try_from(end).unwrap(); TextRange::new(start, end)"),
+    }
+    for what, (sig, body) in want.items():
+        got = _body(sig, what)
+        if got != body:
+            raise ValueError(f"{what}: body changed — the lexer may no longer see the caller's text unmodified / report unshifted "
+                             f"spans (the model lexes the given text from offset 0). now: {got!r}")
+    nb = _body(r"fn next\(&mut self\) -> Option<Self::Item> \{", "Lexer::next")
+    if nb.count("let text = self.inner.slice();") != 2 or nb.count("range: range_from_span(self.inner.span()),") != 2 \
+            or not nb.startswith("let kind = self.inner.next()?;"):
+        raise ValueError(f"Lexer::next: token text/range are no longer logos' slice()/span(): {nb!r}")
     if "kind: TokenKind::Error," not in lex or "if let Ok(kind) = kind" not in lex:
         raise ValueError("Lexer::next no longer maps a logos error to TokenKind::Error")
     tm = re.search(r"pub fn is_trivia\(self\) -> bool \{\s*matches!\(self,([^)]*)\)\s*\}", lex)
@@ -869,6 +905,10 @@ def extract_tokens():
          "",
          f"/-- the variant `kind_from_raw` uses as its upper bound -/",
          f"def kindFromRawBound : String := {_tok_lean_str(bm.group(1))}",
+         "",
+         "/-- asserted by the extractor: `lexer::lex`/`Lexer::new` hand the caller's text to logos unmodified and",
+         "`range_from_span` reports logos' spans unshifted, so token 0 starts at this byte offset of the caller's text -/",
+         "def lexStartOffset : Nat := 0",
          "",
          f"def errorKind : Nat := {names.index('Error')}",
          f"def eofKind : Nat := {names.index('Eof')}",
